@@ -80,4 +80,30 @@ theorem fileparser_items_le_bytes (data : Bytes) :
 theorem fileparser_zero_length_stops :
     Model.Ch10File.iterate [0x25, 0xEB, 0, 0, 0, 0, 0, 0] = .ok ([], 1) := by decide
 
+/-! ### review additions (rev1-C08) -/
+
+/-- [review] the driver iterates from the object's CURRENT offset (`iterate s.data s.off`), not only from 0: from ANY
+    offset of ANY file the iteration stops and yields at most one item per remaining byte, none empty -/
+theorem fileparser_items_le_bytes_from (data : Bytes) (off : Nat) :
+    ∃ ps o, Model.Ch10File.iterate data off = .ok (ps, o) ∧ ps.length ≤ data.length - off ∧
+      ∀ p ∈ ps, 0 < p.length := by
+  have := Lemmas.Ch10File.iterFuel_total data (data.length + 1) off (by omega)
+  simpa [Model.Ch10File.iterate] using this
+
+/-- [review] witness file: 3 junk bytes (one of them half a sync word), a 12-byte packet, a sync word with a zero
+    length field (skipped), a 9-byte packet, 2 trailing bytes -/
+def wCh10File : Bytes :=
+  [0x25, 7, 0xEB,  0x25, 0xEB, 1, 0, 12, 0, 0, 0, 0xA, 0xB, 0xC, 0xD,  0x25, 0xEB, 0, 0, 0, 0, 0, 0,
+   0x25, 0xEB, 2, 0, 9, 0, 0, 0, 0xE,  5, 6]
+
+example : Model.Ch10File.next wCh10File 0 = .ok (15, some [0x25, 0xEB, 1, 0, 12, 0, 0, 0, 0xA, 0xB, 0xC, 0xD]) := by rfl
+example : Model.Ch10File.iterate wCh10File =
+    .ok ([[0x25, 0xEB, 1, 0, 12, 0, 0, 0, 0xA, 0xB, 0xC, 0xD], [0x25, 0xEB, 2, 0, 9, 0, 0, 0, 0xE]], 32) := by rfl
+example : Model.Ch10File.iterate wCh10File 16 = .ok ([[0x25, 0xEB, 2, 0, 9, 0, 0, 0, 0xE]], 32) := by rfl
+/-- a length field pointing past the end of the file: the item is dropped and iteration stops -/
+example : Model.Ch10File.iterate [0x25, 0xEB, 1, 0, 200, 0, 0, 0, 1, 2, 3] = .ok ([], 200) := by rfl
+-- the four cases of `checksum_helpers_total` all occur
+example : Model.Ch11.getChecksumBuf [1, 2, 3] = .error .generic ∧ Model.Ch11.getChecksumBuf [] = .error .type ∧
+    (Model.Ch11.getChecksumByteBuf [1, 2, 3]).isOk = true ∧ (Model.Ch11.getChecksumBuf [1, 2, 3, 4]).isOk = true := by
+  decide
 end Acra.Props.C08
